@@ -758,31 +758,93 @@ def _r4_guard(ck: Checker, prog: Program):
                      f"whatever the order of fcs)", loc=f.loc())
     d = prog.func("processing.diffuse_field_hvsr_processing")
     cs = calls_in(d.node, "check_nyquist_frequency")
-    if len(cs) == 1 and [unparse(a) for a in cs[0].args] == ["max(dt_with_count.keys())", "fcs"]:
+    good = False
+    if len(cs) == 1:
+        from ..astutil import bind_call
+        RD = Resolver(prog, d, inline=False)
+        bound = bind_call(cs[0], f.params)
+        at = enclosing_stmt(cs[0]) if "enclosing_stmt" in globals() else None
+        from ..model import enclosing_stmt as _encl
+        at = _encl(cs[0])
+        try:
+            a0 = canon(RD.value(bound[f.params[0]], at)) if f.params[0] in bound else None
+            a1 = canon(RD.value(bound[f.params[1]], at)) if f.params[1] in bound else None
+            D = canon(RD.value(ast.parse("dt_with_count", mode="eval").body, at))
+            FCSV = canon(RD.value(ast.parse("settings.smoothing['center_frequencies_in_hz']", mode="eval").body, at))
+            good = a0 in (sp.Function("max")(sp.Function("keys")(D)), sp.Function("max")(D), sp.Function("max")(sp.Function("list")(D))) and a1 == FCSV
+        except AnalysisError:
+            good = False
+    if good:
         ck.ok(P + "R4", d.qualname, norm_key(cs[0]))
     else:
         ck.violation(P + "R4", d.qualname, "Nyquist guard", "diffuse-field processing does not guard the largest retained time step", loc=d.loc())
 
 
 def _validation(ck: Checker, prog: Program):
+    """Results are validated on construction, by decision table: _check_input refuses NaN and negative values (any spelling of
+    `any(isnan(value))` / `any(value < 0)`), the constructor stores what _check_input returns, and it refuses an amplitude matrix
+    whose number of columns differs from the number of frequencies."""
+    from ..pathtable import PathTable, literals
+    from .common import pkg_call_hook
     f = prog.func("hvsr_curve.HvsrCurve._check_input")
-    raises = {}
-    for st in f.node.body:
-        if isinstance(st, ast.If) and any(isinstance(b, ast.Raise) for b in st.body):
-            raises[unparse(st.test)] = st
-    want = {"np.isnan(value).any()", "(value < 0).any()"}
-    if want <= set(raises):
+    fnm = lambda x: getattr(getattr(x, "func", None), "__name__", "")      # noqa: E731
+    leaves = PathTable(prog, f.module).leaves(f.node.body)
+    refuses_nan = refuses_neg = False
+    seen = []
+    for l in leaves:
+        if l.exit != "raise":
+            continue
+        for x in literals(l):
+            seen.append(str(x))
+            atoms = list(sp.preorder_traversal(x))
+            under_any = any(fnm(a) in ("any", "attr_any", "sum", "count_nonzero") for a in atoms)
+            if under_any and any(fnm(a) == "isnan" for a in atoms):
+                refuses_nan = True
+            for a in atoms:
+                rel = None
+                if isinstance(a, (sp.Lt, sp.Gt)):
+                    rel = (a.lhs, a.rhs) if isinstance(a, sp.Lt) else (a.rhs, a.lhs)        # (smaller, larger)
+                elif fnm(a) == "less" and len(a.args) == 2:
+                    rel = (a.args[0], a.args[1])
+                elif fnm(a) == "greater" and len(a.args) == 2:
+                    rel = (a.args[1], a.args[0])
+                if rel is not None and under_any and rel[1] == 0 and not getattr(rel[0], "is_number", False):
+                    refuses_neg = True
+    if refuses_nan and refuses_neg:
         ck.ok(P + "R6", f.qualname, "rejects NaN and negative values")
     else:
-        ck.violation(P + "R6", f.qualname, "validation", f"validation guards found: {sorted(raises)}; expected {sorted(want)}", loc=f.loc())
+        ck.violation(P + "R6", f.qualname, "validation", f"validation guards found: {sorted(set(seen))[:4]}; expected refusals of any(isnan(value)) and any(value < 0)", loc=f.loc())
     t = prog.func("hvsr_traditional.HvsrTraditional.__init__")
-    uses = [unparse(st.value) for st in t.node.body if isinstance(st, ast.Assign) and unparse(st.targets[0]) in ("self.frequency", "self.amplitude")]
-    if uses == ["HvsrCurve._check_input(frequency, 'frequency')", "np.atleast_2d(HvsrCurve._check_input(amplitude, 'amplitude'))"]:
+    tleaves = PathTable(prog, t.module, call_hook=pkg_call_hook(prog, t.module, prog.cls("HvsrCurve"), self_name="HvsrCurve"), unroll=True, opaque=("update_peaks_bounded",)).leaves(t.node.body)
+    R = lambda n: sp.Symbol(n, real=True)   # noqa: E731
+    CK = sp.Function("_check_input")
+    HC = R("HvsrCurve")
+    want_f = [CK(HC, R("frequency"), sp.Symbol("'frequency'")), CK(R("frequency"), sp.Symbol("'frequency'"))]
+    want_a = [sp.Function("atleast_2d")(CK(HC, R("amplitude"), sp.Symbol("'amplitude'"))), sp.Function("atleast_2d")(CK(R("amplitude"), sp.Symbol("'amplitude'")))]
+    stored_ok = bool(tleaves)
+    any_normal = False
+    shape_refusal = False
+    got = (None, None)
+    for l in tleaves:
+        last = {}
+        for e in l.events:
+            if e[0] == "store":
+                last[e[1]] = e[2]
+        if l.exit == "raise":
+            for x in literals(l):
+                names = {fnm(a) for a in sp.preorder_traversal(x)} | {str(a) for a in x.free_symbols}
+                if isinstance(x, sp.Ne) and any("frequency" in n_ for n_ in names) and any("amplitude" in n_ or "shape" in n_ for n_ in names):
+                    shape_refusal = True
+            continue
+        any_normal = True
+        if last.get("self.frequency") not in want_f or last.get("self.amplitude") not in want_a:
+            stored_ok = False
+            got = (last.get("self.frequency"), last.get("self.amplitude"))
+    if stored_ok and any_normal:
         ck.ok(P + "R6", t.qualname, "frequency and amplitude are validated on construction")
     else:
-        ck.violation(P + "R6", t.qualname, "validation on construction", f"stored as {uses}", loc=t.loc())
-    shape = [st for st in t.node.body if isinstance(st, ast.If) and any(isinstance(b, ast.Raise) for b in st.body) and "shape[1]" in unparse(st.test)]
-    if shape:
-        ck.ok(P + "R6", t.qualname, norm_key(shape[0]), nontrivial=False)
+        ck.violation(P + "R6", t.qualname, "validation on construction", f"stored as {[str(x)[:80] for x in got]}", loc=t.loc())
+    if shape_refusal:
+        ck.ok(P + "R6", t.qualname, "refuses an amplitude matrix whose columns do not match the frequencies", nontrivial=False)
     else:
         ck.violation(P + "R6", t.qualname, "shape check", "no check that the number of columns equals the number of frequencies", loc=t.loc())
